@@ -148,6 +148,10 @@ func c18Panics(c *Ctx, scope []*ssa.Function) {
 				c.Violated("B-PANIC", fname(f), fmt.Sprintf("explicit panic #%d", np), "a decoder of untrusted bytes reaches an explicit panic", x.Pos())
 			case *ssa.TypeAssert:
 				if x.CommaOk {
+					if bad := uncheckedAssertDeref(f, x); bad != nil {
+						na++
+						c.Violated("B-PANIC", fname(f), fmt.Sprintf("unchecked type assertion #%d to %s is dereferenced", na, shortType(x.AssertedType)), "the ok result is discarded and the value is dereferenced at "+c.P.pos(bad.Pos())+": another dynamic type yields a nil dereference", x.Pos())
+					}
 					return
 				}
 				if _, ok := x.X.(*ssa.MakeInterface); ok {
@@ -829,4 +833,61 @@ func failingReturn(ret *ssa.Return) bool {
 		}
 	}
 	return false
+}
+
+// uncheckedAssertDeref: `v, _ := x.(*T)` whose ok flag is never looked at and whose value is dereferenced
+func uncheckedAssertDeref(f *ssa.Function, x *ssa.TypeAssert) ssa.Instruction {
+	if _, isPtr := x.AssertedType.Underlying().(*types.Pointer); !isPtr {
+		return nil
+	}
+	var val, okv ssa.Value
+	for _, u := range *x.Referrers() {
+		if ex, isEx := u.(*ssa.Extract); isEx {
+			if ex.Index == 0 {
+				val = ex
+			} else {
+				okv = ex
+			}
+		}
+	}
+	if okv != nil {
+		for _, u := range *okv.Referrers() {
+			if _, isDbg := u.(*ssa.DebugRef); !isDbg {
+				return nil
+			}
+		}
+	}
+	if val == nil {
+		return nil
+	}
+	// the same operand already passed a checked assertion to the same type on the way here (a re-assertion inside
+	// the matching case of a type switch)
+	for _, b := range f.Blocks {
+		for _, in := range b.Instrs {
+			ta2, ok := in.(*ssa.TypeAssert)
+			if !ok || ta2 == x || !ta2.CommaOk || !types.Identical(ta2.AssertedType, x.AssertedType) {
+				continue
+			}
+			if ta2.X != x.X && !sameFieldLoad(f, ta2.X, x.X) {
+				continue
+			}
+			for _, u := range *ta2.Referrers() {
+				ex, isEx := u.(*ssa.Extract)
+				if !isEx || ex.Index != 1 {
+					continue
+				}
+				for _, u2 := range *ex.Referrers() {
+					if ifi, isIf := u2.(*ssa.If); isIf {
+						if t := condTrueTarget(ifi, ex); dominatedBy(t, x) {
+							return nil
+						}
+					}
+				}
+			}
+		}
+	}
+	if bad := nilUnsafeUses(f, val); len(bad) > 0 {
+		return bad[0]
+	}
+	return nil
 }
